@@ -197,7 +197,8 @@ def _check_pairs(ctx, s, pairs, a, b, loc):
     bad = [pp for pp in pairs if not pp.dual]
     ctx.check(not bad, "R13.2", f.short, f"dual-arms:{key}",
               message=f"direction site `{key}`: arms are not mirror images: " + ", ".join(
-                  f"{pp.kind} is `{pp.a}` in both arms (`{norm(pp.node_a)[:40]}`)" for pp in bad[:3]),
+                  (f"the mirrored comparisons compare different quantities: `{pp.a}` vs `{pp.b}`" if pp.kind == "asym" else
+                   f"{pp.kind} is `{pp.a}` in both arms (`{norm(pp.node_a)[:40]}`)") for pp in bad[:3]),
               how="every order-sensitive token differs between the arms: " + ", ".join(map(repr, pairs[:6])), where=loc)
     # consistency: all pairs must point the same way (arm A all 'lo'-like or all 'hi'-like is NOT
     # required across kinds - cmp depends on operand roles - but fn/sort/alt pairs must agree)
